@@ -20,6 +20,10 @@ type groupClass struct {
 	lits     []string // finite language, if known
 	digits   bool     // \d{min,max}
 	min, max int      // max -1: unbounded
+	delim    rune     // c [^c]* c : starts and ends with c, no c in between (0: not of this shape)
+	class    []rune   // (class)* or (class)+ : every byte is >= 0x80 or an ASCII member of these ranges
+	classMin int
+	altOf    []int    // the body is an alternation of exactly these capture groups
 }
 
 // classifyGroups derives per-capture-group constraints from the pattern's syntax tree.
@@ -88,6 +92,43 @@ func classifyBody(r *syntax.Regexp, gc *groupClass) {
 	}
 	if ls, ok := finiteLang(r, 8); ok {
 		gc.lits = ls
+		return
+	}
+	// c [^c]* c
+	if r.Op == syntax.OpConcat && len(r.Sub) == 3 && r.Sub[0].Op == syntax.OpLiteral && len(r.Sub[0].Rune) == 1 && r.Sub[0].Rune[0] < 0x80 &&
+		r.Sub[2].Op == syntax.OpLiteral && len(r.Sub[2].Rune) == 1 && r.Sub[2].Rune[0] == r.Sub[0].Rune[0] &&
+		r.Sub[1].Op == syntax.OpStar && r.Sub[1].Sub[0].Op == syntax.OpCharClass {
+		c := r.Sub[0].Rune[0]
+		in := false
+		cc := r.Sub[1].Sub[0]
+		for i := 0; i+1 < len(cc.Rune); i += 2 {
+			if cc.Rune[i] <= c && c <= cc.Rune[i+1] {
+				in = true
+			}
+		}
+		if !in {
+			gc.delim = c
+		}
+		return
+	}
+	// (class)* / (class)+
+	if (r.Op == syntax.OpStar || r.Op == syntax.OpPlus) && r.Sub[0].Op == syntax.OpCharClass {
+		gc.class = append([]rune{}, r.Sub[0].Rune...)
+		if r.Op == syntax.OpPlus {
+			gc.classMin = 1
+		}
+		return
+	}
+	// alternation of capture groups
+	if r.Op == syntax.OpAlternate {
+		var caps []int
+		for _, sub := range r.Sub {
+			if sub.Op != syntax.OpCapture {
+				return
+			}
+			caps = append(caps, sub.Cap)
+		}
+		gc.altOf = caps
 	}
 }
 
@@ -208,6 +249,40 @@ func (x *Exec) groupFacts(ri *RegexInfo, s *Term, i int, gc *groupClass) *Term {
 			alts = append(alts, strEqLit(g, l))
 		}
 		body = Or(alts...)
+	} else if gc.delim != 0 {
+		c := IntLit(int64(gc.delim))
+		j := BoundVar("j", SInt)
+		body = And(Ge(strLen(g), IntLit(2)), Eq(strAt(g, IntLit(0)), c), Eq(strAt(g, Sub(strLen(g), IntLit(1))), c),
+			Forall([]*Term{j}, Implies(And(Le(IntLit(1), j), Lt(j, Sub(strLen(g), IntLit(1)))), Neq(strAt(g, j), c)), []*Term{strAt(g, j)}))
+	} else if gc.class != nil {
+		j := BoundVar("j", SInt)
+		b := strAt(g, j)
+		var mem []*Term
+		for i := 0; i+1 < len(gc.class); i += 2 {
+			lo, hi := gc.class[i], gc.class[i+1]
+			if lo >= 0x80 {
+				continue
+			}
+			if hi >= 0x80 {
+				hi = 0x7f
+			}
+			mem = append(mem, And(Le(IntLit(int64(lo)), b), Le(b, IntLit(int64(hi)))))
+		}
+		mem = append(mem, Ge(b, IntLit(0x80)))
+		body = And(Ge(strLen(g), IntLit(int64(gc.classMin))),
+			Forall([]*Term{j}, Implies(And(Le(IntLit(0), j), Lt(j, strLen(g))), Or(mem...)), []*Term{strAt(g, j)}))
+	} else if gc.altOf != nil {
+		// exactly one alternative participates (a non-participating group is ""); the group is that alternative's text;
+		// when all are empty the group equals the last alternative that can match the empty string (it is empty too)
+		var cs []*Term
+		allEmpty := True
+		for _, k := range gc.altOf {
+			gk := reGroup(ri, s, k)
+			cs = append(cs, Implies(Gt(strLen(gk), IntLit(0)), Eq(g, gk)))
+			allEmpty = And(allEmpty, Eq(strLen(gk), IntLit(0)))
+		}
+		cs = append(cs, Implies(allEmpty, empty))
+		body = And(cs...)
 	} else {
 		body = True
 	}
@@ -298,9 +373,28 @@ func init() {
 		return x.sprintf(st, args, pos)
 	}
 	prelude["strings.Contains"] = func(x *Exec, st *State, callee *ssa.Function, args []*Val, pos token.Pos) *Val {
+		return x.strContains(st, args[0].T, args[1].T)
+	}
+	prelude["strings.Count"] = func(x *Exec, st *State, callee *ssa.Function, args []*Val, pos token.Pos) *Val {
 		x.trusted["A-STR"] = true
 		s, sub := args[0].T, args[1].T
+		r := UF("gs.count", SInt, s, sub)
+		x.ctx.assumeGlobal(st, And(Ge(r, IntLit(0)), Eq(Gt(r, IntLit(0)), x.strContains(st, s, sub).T)))
+		return &Val{T: r, Typ: intT}
+	}
+}
+
+// strContains: strings.Contains(s, sub) as an uninterpreted predicate with its length facts and, for a one-byte sub,
+// the exists / forall characterisation.
+func (x *Exec) strContains(st *State, s, sub *Term) *Val {
+	{
+		x.trusted["A-STR"] = true
 		r := UF("gs.contains", SBool, s, sub)
+		if lit, ok := literalOf(s); ok {
+			if lsub, ok2 := literalOf(sub); ok2 {
+				return &Val{T: BoolLit(strings.Contains(lit, lsub)), Typ: boolT}
+			}
+		}
 		x.ctx.assumeGlobal(st, And(Implies(r, Ge(strLen(s), strLen(sub))), Implies(Eq(strLen(sub), IntLit(0)), r)))
 		if l, ok := literalOf(sub); ok && len(l) == 1 {
 			// contains a single byte: exists / forall characterisation
@@ -311,13 +405,11 @@ func init() {
 		}
 		return &Val{T: r, Typ: boolT}
 	}
-	prelude["strings.Count"] = func(x *Exec, st *State, callee *ssa.Function, args []*Val, pos token.Pos) *Val {
-		x.trusted["A-STR"] = true
-		s, sub := args[0].T, args[1].T
-		r := UF("gs.count", SInt, s, sub)
-		x.ctx.assumeGlobal(st, And(Ge(r, IntLit(0)), Eq(Gt(r, IntLit(0)), UF("gs.contains", SBool, s, sub))))
-		return &Val{T: r, Typ: intT}
-	}
+}
+
+func init() {
+	strT := types.Typ[types.String]
+	_ = strT
 	for _, nm := range []string{"strings.Replace", "strings.ReplaceAll", "strings.ToUpper", "strings.TrimSpace", "strings.Join"} {
 		nm := nm
 		prelude[nm] = func(x *Exec, st *State, callee *ssa.Function, args []*Val, pos token.Pos) *Val {
@@ -650,7 +742,18 @@ func init() {
 		return &Val{T: UF("gs.count", SInt, args[0].T, args[1].T), Typ: intT}
 	}
 	specBuiltins["strcontains"] = func(ev *evaluator, args []*Val) *Val {
-		return &Val{T: UF("gs.contains", SBool, args[0].T, args[1].T), Typ: boolT}
+		if hasFreeBound(args[0].T) || hasFreeBound(args[1].T) {
+			return &Val{T: UF("gs.contains", SBool, args[0].T, args[1].T), Typ: boolT}
+		}
+		ev.own()
+		return ev.x.strContains(ev.st, args[0].T, args[1].T)
+	}
+	// tolower(s): the abstract result of strings.ToLower (A-STR)
+	specBuiltins["tolower"] = func(ev *evaluator, args []*Val) *Val {
+		if l, ok := literalOf(args[0].T); ok {
+			return &Val{T: StrLit(strings.ToLower(l)), Typ: types.Typ[types.String]}
+		}
+		return &Val{T: UF("gs.tolower", SStr, args[0].T), Typ: types.Typ[types.String]}
 	}
 	specBuiltins["isdigits"] = func(ev *evaluator, args []*Val) *Val {
 		return &Val{T: strIsDigits(args[0].T), Typ: boolT}
